@@ -102,7 +102,7 @@ def main(tier):
         ofv = src + '.json'
         rc, out = V.run([hv, 'repeat', src, ofv], timeout=1800, env={'VERIF_SEED': V.seed()})
         if rc != 0:
-            raise V.Broken('h_vpsc repeat failed rc=%d %s' % (rc, out[-1000:]))
+            V.harness_exit('h_vpsc:repeat', rc, out)
         recs += json.load(open(ofv))['recs']
     nvpsc = len(recs) - nroute
     # ---- layouts, run twice with heap churn and an unrelated layout in between
